@@ -90,6 +90,7 @@ func main() {
 	}
 	run := vk.Start("C15")
 	batches := run.Pick(24, 1200)
+	run.TolerateUndecided(run.Pick(2, 12))
 	args := batchArgs{Random: run.Pick(8, 24), MinActs: 30, MaxActs: 120, Size: 1, Clear: 1, Age: 1, Matrix: 1, Only: -1}
 	first := uint64(0)
 	replaying := false
